@@ -562,6 +562,8 @@ pub fn run_inner<S: Scenario>(s: S, o: &Opts) -> i32 {
         digests: Mutex::new(vec![]),
     });
     let done = Arc::new(AtomicBool::new(false));
+    // set by the watchdog while it writes up a hang: the batch must not end "clean" under it
+    let hang_seen = Arc::new(AtomicBool::new(false));
     let nthreads = o.threads.max(1);
     // watchdog slots: (run index + 1, start in ms since t0); 0 = idle
     let slots: Arc<Vec<(AtomicU64, AtomicU64)>> =
@@ -571,6 +573,7 @@ pub fn run_inner<S: Scenario>(s: S, o: &Opts) -> i32 {
     {
         let slots = slots.clone();
         let done = done.clone();
+        let hang_seen = hang_seen.clone();
         let s = s.clone();
         let o = o.clone();
         std::thread::spawn(move || loop {
@@ -584,6 +587,7 @@ pub fn run_inner<S: Scenario>(s: S, o: &Opts) -> i32 {
                 let st = start.load(Ordering::SeqCst);
                 if r != 0 && now.saturating_sub(st) > o.hang_secs * 1000 {
                     let run = r - 1;
+                    hang_seen.store(true, Ordering::SeqCst);
                     let case = s.gen(o.seed, run);
                     let before = s.size(&case);
                     // candidates run in child processes with a 10 s limit each (a hang cannot be interrupted in-process)
@@ -662,6 +666,13 @@ pub fn run_inner<S: Scenario>(s: S, o: &Opts) -> i32 {
         }
     }
     done.store(true, Ordering::SeqCst);
+    if hang_seen.load(Ordering::SeqCst) {
+        // the watchdog is writing up a run that exceeded the limit (it may have finished meanwhile, very late);
+        // the verdict is the watchdog's, which ends the process with exit code 1
+        loop {
+            std::thread::sleep(std::time::Duration::from_secs(1));
+        }
+    }
     let wall = t0.elapsed().as_secs_f64();
 
     let mut digests = std::mem::take(&mut *shared.digests.lock().unwrap());
